@@ -1076,8 +1076,8 @@ func C17(c *vf.Ctx) {
 
 	allShapes := []string{"unary", "cstream", "sstream", "bidi"}
 	allLibs := []string{"google", "gogo", "custom"}
-	svcAll := []string{"Foo", "Bar", "foo_bar", "Foo_Bar", "Foo_", "x", "FooClient", "Stream", "RegisterFoo"}
-	methAll := []string{"Foo", "Bar", "foo_bar", "Foo_Bar", "Foo_", "x", "FooClient", "Stream", "DRPCConn"}
+	svcAll := []string{"Foo", "Bar", "foo_bar", "FooBar", "Foo_Bar", "Foo_", "x", "FooClient", "Stream", "RegisterFoo"}
+	methAll := []string{"Foo", "Bar", "foo_bar", "FooBar", "Foo_Bar", "Foo_", "x", "FooClient", "Stream", "DRPCConn"}
 
 	runs := []c17Run{}
 	// (1) every shape x library x json x message location x package, one service with one method (and the empty prefixes)
@@ -1088,8 +1088,8 @@ func C17(c *vf.Ctx) {
 	}
 	runs = append(runs, r1)
 	// (2) every pair of declarations: two services with one method each, one service with two methods
-	r2 := c17Run{label: "names", svcNames: []string{"Foo", "Foo_Bar", "foo_bar", "Foo_", "FooClient", "RegisterFoo"},
-		methNames: []string{"Bar", "foo_bar", "Foo_", "x", "DRPCConn"}, shapes: []string{"unary", "bidi"}, pkgs: []string{"p"},
+	r2 := c17Run{label: "names", svcNames: []string{"Foo", "Foo_Bar", "foo_bar", "FooBar", "Foo_", "FooClient", "RegisterFoo"},
+		methNames: []string{"Bar", "foo_bar", "FooBar", "Foo_", "x", "DRPCConn"}, shapes: []string{"unary", "bidi"}, pkgs: []string{"p"},
 		libs: []string{"google"}, jsons: "{TRUE}", msgs: []string{"local"}, plans: "{<<1>>, <<1, 0>>, <<1, 1>>, <<2>>}", emit: true, sampleOneIn: 40, maxLevel2: 100}
 	if !q {
 		r2.svcNames, r2.methNames, r2.shapes = svcAll, methAll, allShapes
